@@ -83,6 +83,38 @@ def harness32():
     return _bin32["b"]
 
 
+def harness_purego():
+    if "p" not in _bin32:
+        _bin32["p"] = vlib.build_harness(tags="purego")
+    return _bin32["p"]
+
+
+def purego_lines(prop, tier, seed):
+    """the same generator with library and harness built under the `purego` tag (the portable code paths that
+    assembly-free builds and targets outside the usual list get); the quick tier validates every third unit"""
+    lines, _ = run_scenario(harness_purego(), ["gen", "-prop", prop, "-tier", tier, "-seed", str(seed + 64)], None, timeout=1800)
+    return subsample_units(lines, tier, seed + 1)
+
+
+def subsample_units(lines, tier, seed):
+    if tier != "quick":
+        return lines
+    units, cur = [], []
+    for ln in lines:
+        if ('"op":"Reset"' in ln or '"op":"Cut"' in ln) and cur:
+            units.append(cur)
+            cur = []
+        cur.append(ln)
+    units.append(cur)
+    keep, k = [], seed % 3
+    for i, u in enumerate(units):
+        if i % 3 == k or any('"panicked":true' in x or '"timeout":true' in x or '"op":"Crash"' in x for x in u):
+            keep += u
+        elif '"op":"Reset"' in u[0]:
+            keep.append(u[0])
+    return keep
+
+
 def arch32_lines(prop, tier, seed):
     """the same generator in a 32-bit build of library and harness (GOARCH=386: int, uint and uintptr are 32 bits wide);
     units (Cut to Cut) are self-contained, the quick tier validates every third of them"""
@@ -197,6 +229,7 @@ def gen_recorder(prop, arch32=True, cold=False, concuni=False, batch=False, conc
         lines = vlib.read_trace(out)
         if arch32:
             lines += arch32_lines(prop, tier, seed)
+            lines += purego_lines(prop, tier, seed)
         if cold:
             lines += cold_start(binary, tier, seed)
         if concuni:
@@ -223,7 +256,7 @@ def plain_replay(prop, path, binary):
     # twice more before the failure counts as not reproduced
     for attempt in range(3):
         lines, _ = run_scenario(binary, ["replay", "-arg", path], None, timeout=1800)     # (a death inside the library is a Crash event)
-        v = vlib.validate(lines, [prop], shards=1)
+        v = vlib.validate(lines, [prop], shards=1 if len(lines) < 3000 else None)
         if v.infra:
             raise Infra("replay trace unusable: %s" % v.infra[:3])
         mine = [b for b in v.bad if b[1] == prop]
@@ -306,6 +339,7 @@ def phased_recorder(prop):
         vlib.run_harness(binary, ["gen", "-prop", prop, "-tier", tier, "-seed", str(seed), "-out", out])
         lines = vlib.read_trace(out)
         lines += arch32_lines(prop, tier, seed)
+        lines += purego_lines(prop, tier, seed)
         if prop == "C14":
             lines += cold_start(binary, tier, seed)     # first calls of a fresh process made by many goroutines at once
         out2 = os.path.join(d, "extreme.ndjson")
@@ -350,7 +384,7 @@ def phased_replay(prop):
         unit = json.load(open(path))["unit"]
         if unit and (unit[0].get("cold") or "concuni_seed" in unit[0] or "batch_seed" in unit[0]):
             return cold_replay(prop)(path, binary)
-        if any(e.get("op") == "Crash" for e in unit) and not any(e.get("arch") == "386" for e in unit[:1]):
+        if any(e.get("op") == "Crash" and "call" in e for e in unit):        # (a death in the extreme-argument phase names the call)
             reset = next((e for e in unit if e.get("op") == "Reset"), {})
             _, crashed, r = phased_extreme(binary, prop, reset.get("tier", "quick"), reset.get("seed", 1))
             return (not crashed, "extreme-argument phase re-run in a child process: %s" % ("died again: " + r.stderr[:200].replace("\n", " | ") if crashed else "completed"))
@@ -502,11 +536,11 @@ RECIPES = {
                 speaks=lambda e: e.get("op") in ("ByEntropy", "Check", "ListSource", "Gen"),
                 rule="all 10 x 2048 list indices: the word emitted through NewMnemonicByEntropy for every index (cover family), validation of sentences "
                      "containing every word and of the same sentences with one word replaced by a list neighbour, and the parsed source text of internal/wordlist/*.go"),
-    "C09": dict(mc=[MC_GATES, proof_gates], record=phased_recorder("C09"), replay=phased_replay("C09"), props=["C09", "DRIFT"], exhaustive=True,
+    "C09": dict(mc=[MC_GATES, proof_gates], record=phased_recorder("C09"), replay=phased_replay("C09"), prefix_ok=True, props=["C09", "DRIFT"], exhaustive=True,
                 speaks=lambda e: e.get("op") in ("ByEntropy", "NewMnemonic", "Read", "Crash"),
                 rule="every entropy length 0..4096 (+nil, +2^16/2^20/2^24 +-{0,1,4}) and every word count -4096..4096 (+extremes of int) under a counting source; "
                      "distinct by (operation, length or count, language)"),
-    "C14": dict(mc=[MC_NAMES, lambda t, s_: mc_history(t, s_)], record=phased_recorder("C14"), replay=phased_replay("C14"), props=["C14"],
+    "C14": dict(mc=[MC_NAMES, lambda t, s_: mc_history(t, s_)], record=phased_recorder("C14"), replay=phased_replay("C14"), prefix_ok=True, props=["C14"],
                 speaks=lambda e: "panicked" in e,
                 rule="product of argument classes (21 Language values x strings incl. every invalid-UTF-8 shape x entropy sizes x counts), fuzzed bytes, "
                      "multi-megabyte inputs, each call under recover and a 120 s watchdog; distinct by (operation, arguments)"),
@@ -714,7 +748,12 @@ def record_c06(binary, tier, seed):
     steps.append({"op": "cut"})
     # a working source that is slow to answer (1.2 s before the first bytes, and again mid-way)
     for (w, sc) in ((12, [{"k": 16, "err": ""}]), (24, [{"k": 9, "err": ""}, {"k": 23, "err": ""}])):
-        steps.append({"op": "new", "n": w, "lang": seed % 10, "script": sc, "after": "data", "fill": 8, "delay_ms": 1200 if tier == "quick" else 3000})
+        steps.append({"op": "new", "n": w, "lang": seed % 10, "script": sc, "after": "data", "fill": 8, "delay_ms": (3300 if w == 12 else 1200) if tier == "quick" else 6500})
+        # ... and the calls that follow a slow one are served as ever
+        steps.append({"op": "new", "n": 24, "lang": seed % 10, "script": [{"k": 7, "err": ""}, {"k": 25, "err": ""}], "after": "data", "fill": 8})
+        steps.append({"op": "new", "n": 12, "lang": seed % 10, "script": [{"k": 8, "err": ""}, {"k": 0, "err": "custom"}], "after": "data", "fill": 8})
+        steps.append({"op": "new", "n": 15, "lang": seed % 10, "script": [{"k": 20, "err": ""}], "after": "data", "fill": 8})
+        nrun += 3
         nrun += 1
     steps.append({"op": "cut"})
     # collections and finalizers run between the pieces of a delivery (a busy process): the bytes delivered first are
@@ -770,6 +809,14 @@ def record_c06(binary, tier, seed):
                     steps.append({"op": "new", "n": w, "lang": rng.randrange(10), "script": sc, "after": after, "fill": 7})
                     nrun += 1
         steps.append({"op": "cut"})
+    # a process that is no longer young (deadlines fixed at start-up, idle timers): the protocol is the same
+    steps.append({"op": "age", "delay_ms": 11000 if tier == "quick" else 65000})
+    for w in (12, 24, 18):
+        need = w + w // 3
+        steps.append({"op": "new", "n": w, "lang": seed % 10, "script": [{"k": 5, "err": ""}, {"k": need - 5, "err": ""}], "after": "data", "fill": 3})
+        steps.append({"op": "new", "n": w, "lang": seed % 10, "script": [{"k": 5, "err": ""}, {"k": 0, "err": "EOF"}], "after": "EOF", "fill": 3})
+        nrun += 2
+    steps.append({"op": "cut"})
     steps.append({"op": "swap", "kind": "os"})
     d = vlib.scratch("verif-tr-")
     prog, out = os.path.join(d, "prog.json"), os.path.join(d, "trace.ndjson")
@@ -800,7 +847,7 @@ def replay_c06(path, binary):
     return (len(mine) == 0, "%s: %d events, %d failing" % ("overlap scenarios run again" if cut is not None else "re-executed", len(lines), len(mine)))
 
 
-RECIPES["C06"] = dict(mc=[mc_reader, mc_calls, mc_lifetime], record=record_c06, replay=replay_c06, props=["C06", "DRIFT"], exhaustive=True,
+RECIPES["C06"] = dict(mc=[mc_reader, mc_calls, mc_lifetime], record=record_c06, replay=replay_c06, prefix_ok=True, props=["C06", "DRIFT"], exhaustive=True,
                       speaks=lambda e: e.get("op") in ("NewMnemonic", "Read"),
                       rule="one scripted reader per edge of MC_Reader's state graph (every delivered count k -> k', every failure kind EOF/unexpected EOF/other with or "
                            "without bytes alongside, (0,nil) reads) for each of the five word counts, plus all two-piece splits and 1-byte reads; distinct by (count, language, reads)")
@@ -849,6 +896,8 @@ def osproc_env(env_mode, slow_ms):
     """the environment of a fresh process: as inherited; with the variables build systems, test runners and
     'reproducible' modes conventionally set; or stripped to almost nothing"""
     base = dict(os.environ, VERIF_DATA=os.path.join(vlib.SPEC, "data"), VERIF_SLOW_MS=str(slow_ms))
+    if env_mode.startswith("idle"):
+        base["VERIF_IDLE_MS"] = env_mode[4:]
     if env_mode == "conventional":
         base.update(CONVENTIONAL_ENV)
     elif env_mode == "bare":
@@ -907,6 +956,8 @@ def record_c07(binary, tier, seed):
             # variables, two an almost empty environment - the default source is the OS generator all the same
             k = combos.index((n, l))
             mode = "conventional" if k % 25 == (seed * 3) % 25 else "bare" if k % 25 == (seed * 3 + 11) % 25 else ""
+            if k == (seed * 5 + 2) % 50 and rep == 0:
+                mode = "idle%d" % (11000 if tier == "quick" else 65000)   # one process idles, then generates eight times
             ls, ob = osproc_trace(binary, n, l, seed * 1000 + rep, d, slow_ms=slow, env_mode=mode)
             lines += ls
             observed += ob
@@ -946,7 +997,7 @@ def replay_c07(path, binary):
         raise Infra("C07 replay file has no NewMnemonic call")
     d = vlib.scratch("verif-os-")
     lines, ob = osproc_trace(binary, call["n"]["v"], call["lang"], 4242, d, slow_ms=1200)
-    for mode in ("conventional", "bare"):
+    for mode in ("conventional", "bare", "idle11000"):
         l2, _ = osproc_trace(binary, call["n"]["v"], call["lang"], 4243, d, env_mode=mode)
         lines += l2
     v = vlib.validate(lines, ["C07"], shards=1)
@@ -1438,6 +1489,24 @@ class _Srv(http.server.BaseHTTPRequestHandler):
         ct = ["text/plain; charset=utf-8", "text/plain", None, "application/octet-stream", "text/plain; charset=UTF-8", "text/plain"][(_Srv.served // 2) % 6]
         if ct:
             self.send_header("Content-Type", ct)
+        # a client that says it accepts gzip gets it, now and then: sized (Content-Length of the compressed body, as a
+        # CDN serving pre-compressed files does) or chunked
+        if "gzip" in (self.headers.get("Accept-Encoding") or "") and _Srv.served % 3 == 0:
+            import gzip as _gz
+            z = _gz.compress(b, 6)
+            self.send_header("Content-Encoding", "gzip")
+            if _Srv.served % 2 == 0:
+                self.send_header("Content-Length", str(len(z)))
+                self.end_headers()
+                self.wfile.write(z)
+            else:
+                self.send_header("Transfer-Encoding", "chunked")
+                self.end_headers()
+                for i in range(0, len(z), 997):
+                    piece = z[i:i + 997]
+                    self.wfile.write(b"%x\r\n" % len(piece) + piece + b"\r\n")
+                self.wfile.write(b"0\r\n\r\n")
+            return
         if _Srv.faults.get(name, 0) > 0:
             # a transfer that breaks off: the declared length is never reached, the connection is dropped mid-body
             _Srv.faults[name] -= 1
